@@ -66,6 +66,9 @@ fn main() {
     // panics inside the implementation are caught per case; keep the default hook quiet
     std::panic::set_hook(Box::new(|_| {}));
     let mut run = Run::new(&prop, seed, tier);
+    if mode == "corr" {
+        run.set_live_dir(&out);
+    }
     match (mode.as_str(), prop.as_str()) {
         ("corr", "C13") => c13::corr(&mut run),
         ("corr", "C20") => c20::corr(&mut run),
